@@ -54,7 +54,10 @@ fn synth_coeffs(rng: &mut Rng, n_out: u32, extent: u32, taps: u32, style: u64) -
                 0 => rng.f64_unit(),                                  // non-negative
                 1 => rng.f64_unit() - 0.3,                            // some negative lobes
                 2 => if i % 2 == 0 { 1.0 } else { -0.45 - 0.1 * rng.f64_unit() }, // strong alternation -> large normalised weights
-                _ => if rng.chance(1, 6) { 0.0 } else { rng.f64_unit() * 0.001 + 1e-6 }, // tiny weights -> highest precision
+                3 => if rng.chance(1, 6) { 0.0 } else { rng.f64_unit() * 0.001 + 1e-6 }, // tiny weights -> highest precision
+                // huge lobes far outside the head-room (normalised weights up to ~100, precision down to 7): shifted sums far
+                // beyond the component range, yet no accumulator overflow for the short windows this style is used with
+                _ => if i % 2 == 0 { 1.0 } else { -1.0 + 0.004 * rng.f64_unit() + if i == 1 { 0.003 } else { 0.0 } },
             })
             .collect();
         let s: f64 = w.iter().sum();
@@ -63,7 +66,7 @@ fn synth_coeffs(rng: &mut Rng, n_out: u32, extent: u32, taps: u32, style: u64) -
         }
         // keep inside the documented head-room: sum |w| < 4
         let sa: f64 = w.iter().map(|x| x.abs()).sum();
-        if sa >= 3.9 {
+        if sa >= 3.9 && style != 4 {
             let n = w.len() as f64;
             w.iter_mut().for_each(|x| *x = 1.0 / n);
         }
@@ -83,12 +86,15 @@ pub fn generate(out: &mut Out, seed: u64, thorough: bool) {
         let kind = pt_kind(pt);
         let n = pt_comps(pt);
         for horiz in [true, false] {
-            for taps in (1..=26u32).chain([40u32, 70, 130, 300, 520]) {
+            // the last six entries (marked by +1000) force the huge-lobe style on even window lengths and >= 4 rows
+            for taps_tag in (1..=26u32).chain([40u32, 70, 130, 300, 520]).chain([1004u32, 1006, 1008, 1012, 1016, 1024]) {
+                let forced = taps_tag >= 1000;
+                let taps = taps_tag % 1000;
                 for _ in 0..reps {
-                    let style = rng.below(4);
+                    let style = if forced { 4 } else if taps <= 26 && taps >= 2 { rng.below(5) } else { rng.below(4) };
                     // destination width: covers widths*channels mod 32 over the run; height mod 4
                     let dw = rng.range(1, 35) as u32;
-                    let dh = rng.range(1, 9) as u32;
+                    let dh = if forced { rng.range(4, 9) as u32 } else { rng.range(1, 9) as u32 };
                     let offset = rng.below(3) as u32;
                     let (sw, sh, c) = if horiz {
                         let sw = taps + rng.below(9) as u32;
@@ -98,7 +104,20 @@ pub fn generate(out: &mut Out, seed: u64, thorough: bool) {
                         (dw + offset, sh, synth_coeffs(&mut rng, dh, sh, taps, style))
                     };
                     let mode = rng.below(5);
-                    let src = random_comps(&mut rng, pt, (sw * sh) as usize, mode);
+                    let mut src = random_comps(&mut rng, pt, (sw * sh) as usize, mode);
+                    if style == 4 && kind != Kind::F32 && kind != Kind::I32 {
+                        // extremes alternating along the convolved axis: aligned windows reach sums 100x beyond the range
+                        let maxv = kind.max();
+                        let phase = rng.below(2) as usize;
+                        for y in 0..sh as usize {
+                            for x in 0..sw as usize {
+                                let along = if horiz { x } else { y };
+                                for c in 0..n {
+                                    src[(y * sw as usize + x) * n + c] = if (along + phase) % 2 == 0 { maxv - rng.below(2) } else { rng.below(2) };
+                                }
+                            }
+                        }
+                    }
                     let reference = catch(|| with_pixel_type!(pt, P => run_pass::<P>(kind, horiz, sw, sh, dw, dh, offset, &c, &src, CpuExtensions::None)));
                     for &(ext_name, ext) in ex.iter() {
                         let got = catch(|| with_pixel_type!(pt, P => run_pass::<P>(kind, horiz, sw, sh, dw, dh, offset, &c, &src, ext)));
